@@ -112,6 +112,13 @@ func (g *c12) documents(n int) {
 		"empty-object":         `{}`,
 		"only-context":         `{` + v + `}`,
 		"graph-in-graph":       `{` + v + `,"@id":"urn:a","@graph":[{"@id":"urn:b","@graph":[{"@id":"urn:c","n":"x"}]}]}`,
+		// reference cycles that run through named-graph containment (a graph's name is a node of the enclosing graph)
+		"graph-cycle-blank":    `{"@context":{"@vocab":"http://ex/"},"@id":"_:g1","name":"top","@graph":[{"@id":"_:x","p":{"@id":"_:g2","@graph":[{"@id":"_:y","name":"n","q":{"@id":"_:g1"}}]}}]}`,
+		"graph-cycle-iri":      `{` + v + `,"@id":"urn:g1","n":"top","@graph":[{"@id":"urn:x","o":{"@id":"urn:g2","@graph":[{"@id":"urn:y","n":"n","r":"urn:g1"}]}}]}`,
+		"graph-self-reference": `{` + v + `,"@id":"urn:g1","n":"top","@graph":[{"@id":"urn:x","r":"urn:g1","n":"x"}]}`,
+		"graph-cycle-three":    `{` + v + `,"@id":"urn:g1","n":"top","@graph":[{"@id":"urn:x","o":{"@id":"urn:g2","@graph":[{"@id":"urn:y","o":{"@id":"urn:g3","@graph":[{"@id":"urn:z","n":"n","r":"urn:g1"}]}}]}}]}`,
+		"graph-cycle-inner":    `{` + v + `,"@id":"urn:g1","n":"top","@graph":[{"@id":"urn:x","o":{"@id":"urn:g2","@graph":[{"@id":"urn:y","n":"n","r":"urn:g2"}]}}]}`,
+		"graph-named-twice":    `{` + v + `,"@id":"urn:a","o":[{"@id":"urn:g","@graph":[{"@id":"urn:y","n":"1"}]},{"@id":"urn:h","r":"urn:g","n":"2"}]}`,
 		"list":                 `{` + v + `,"@id":"urn:a","l":{"@list":["a","b",""]}}`,
 		"language":             `{` + v + `,"@id":"urn:a","n":{"@value":"x","@language":"en"}}`,
 		"huge-number":          `{` + v + `,"@id":"urn:a","n":1e400}`,
@@ -222,7 +229,9 @@ func (g *c12) binaries(n int) {
 		func() []byte { return encodeMz(1, nil, comp, big.NewInt(0), 0, nil, true, -1) },
 		func() []byte { return encodeMz(1, doc, comp, big.NewInt(-5), 0, nil, true, -1) },
 		func() []byte { return encodeMz(1, doc, comp, mz.Root().BigInt(), len(ents), ents, nil, -1) },
-		func() []byte { return encodeMz(1, doc, comp, mz.Root().BigInt(), 1, []ent{{"k", "not an entry"}}, true, -1) },
+		func() []byte {
+			return encodeMz(1, doc, comp, mz.Root().BigInt(), 1, []ent{{"k", "not an entry"}}, true, -1)
+		},
 		func() []byte { return encodeMz(1, doc, comp, mz.Root().BigInt(), 1, []ent{{5, 5}}, true, -1) },
 		func() []byte { return nil },
 		func() []byte { return []byte{0} },
